@@ -46,6 +46,16 @@ def line_cases(widths, seed, thorough):
                 body = pad_to(p, w, "c")
                 if body is not None:
                     cases.append(("line-comment", pos, w, body))
+            # alternative spellings count as many columns as they have characters
+            for tail in ("<:1:> = <%1%>;", "??(1??);", "%:"):
+                body = pad_to("int\tg_", w - len(tail), "a")
+                if body is not None and pos != "start":
+                    cases.append(("code-alternative-spelling", pos, w, body + tail))
+            # a form feed / vertical tab / other control character inside a comment is not a line end
+            for ctl in ("\x0c", "\x0b", "\x1c", "\x85", "\u2028"):
+                mid = pad_to("** ", w, "m")
+                if mid is not None and pos == "middle":
+                    cases.append(("block-interior-after-control-char", pos, w, "/*\n** a" + ctl + "b\n" + mid + "\nlast */"))
             for p in blk_first:
                 first = pad_to(p, w, "f")
                 if first is not None:
